@@ -614,6 +614,7 @@ func runHarness(ld *Loaded, hs *HarnessSpec, tier string, known map[string]bool,
 			in.ensureInit(hs.Fn.Pkg)
 			in.deferredFacts = nil
 			in.pools = nil
+			in.replayEnv = nil
 			in.callFunction(hs.Fn, nil, nil)
 			for _, l := range in.deferredFacts {
 				in.obligation(l, "cwidth", in.ts.False())
@@ -799,12 +800,13 @@ func (rp *Replayer) Replay(hs *HarnessSpec, ob *Obligation, all []*HarnessSpec, 
 	}
 	rp.mu.Unlock()
 	rf := map[string]interface{}{"harness": hs.Name, "label": ob.Label, "symbols": modelToSymbols(ob), "known": known, "tier": tier,
-		"site": ob.Site, "pkg": hs.PkgDir}
+		"site": ob.Site, "pkg": hs.PkgDir, "env": ob.Env}
 	b, _ := json.MarshalIndent(rf, "", " ")
 	os.WriteFile(file, b, 0644)
 	cmd := exec.Command(bin, "-test.run", "^TestVsymReplay$", "-test.v", "-test.timeout", "120s")
 	cmd.Dir = filepath.Join(rp.ws.RepoDir, hs.PkgDir)
 	cmd.Env = append(os.Environ(), "VSYM_REPLAY="+file, "VSYM_HARNESS="+hs.Name, "VERIF_TIER="+tier)
+	cmd.Env = append(cmd.Env, ob.Env...)
 	out, rerr := cmd.CombinedOutput()
 	so := string(out)
 	ro := ReplayOutcome{Output: so, File: file}
